@@ -241,6 +241,9 @@ func reflectKind(t types.Type) reflect.Kind {
 }
 
 func ext۰reflect۰Value۰Kind(fr *frame, args []value) value {
+	if rV2T(args[0]).t == nil {
+		return uint(reflect.Invalid)
+	}
 	// Signature: func (reflect.Value) uint
 	return uint(reflectKind(rV2T(args[0]).t))
 }
@@ -472,6 +475,32 @@ func ext۰reflect۰Value۰IsValid(fr *frame, args []value) value {
 func ext۰reflect۰Value۰Set(fr *frame, args []value) value {
 	// TODO(adonovan): implement.
 	return nil
+}
+
+func ext۰reflect۰Indirect(fr *frame, args []value) value {
+	v := args[0].(structure)
+	if rV2T(v).t == nil {
+		return v
+	}
+	if _, ok := rV2T(v).t.Underlying().(*types.Pointer); ok {
+		return ext۰reflect۰Value۰Elem(fr, args)
+	}
+	return v
+}
+
+func ext۰reflect۰Value۰FieldByName(fr *frame, args []value) value {
+	v := args[0].(structure)
+	st, ok := rV2T(v).t.Underlying().(*types.Struct)
+	if !ok {
+		panic(targetFault("reflect: call of reflect.Value.FieldByName on non-struct Value"))
+	}
+	name := args[1].(string)
+	for i := 0; i < st.NumFields(); i++ {
+		if st.Field(i).Name() == name {
+			return makeReflectValue(st.Field(i).Type(), rV2V(v).(structure)[i])
+		}
+	}
+	return makeReflectValue(nil, nil)
 }
 
 func ext۰reflect۰valueInterface(fr *frame, args []value) value {
